@@ -80,3 +80,27 @@ Proof.
   unfold W_cdft. rewrite E. exact R.
 Qed.
 End Instances.
+
+(** DeltaChange: with cm_future equal to cm_hist value for value (same time axis) apply_location returns obs *)
+Section DCfix.
+Variables (L S : Z).
+Hypothesis HS : (0 < S)%Z.
+Hypothesis HSL : (S <= L)%Z.
+Hypothesis Hodd : (S mod 2 = 1)%Z.
+Variables (dobs dm : list Z) (obs hist fut : list Q).
+Hypothesis Hdo : forall d, In d dobs -> (1 <= d <= 366)%Z.
+Hypothesis Hlo : List.length obs = List.length dobs.
+Hypothesis Hhf : eql hist fut.
+
+Theorem dc_fixed_point_apply_location :
+  exists out, driver_dc Q L S dobs dm dm obs hist fut (W_dc "additive") = Some out /\ List.length out = List.length obs /\
+    forall k, (k < List.length obs)%nat -> exists v, nth k out None = Some v /\ v == nth k obs 0.
+Proof.
+  rewrite driver_dc_as_rw.
+  apply (fixed_point_through_windows L S HS HSL Hodd dm dm dobs fut hist obs Hdo Hlo). intros ci _.
+  unfold W_dc, dc_apply_on_window. cbn [String.eqb Ascii.eqb Bool.eqb unwrap]. cbv zeta.
+  apply eql_map_id. intros x _.
+  assert (E : eql (slice_h L dm hist (fst ci)) (slice_o L dm fut (fst ci))) by (unfold slice_h, slice_o; apply take_rel; exact Hhf).
+  unfold slice_o, slice_h in *. rewrite (qmean_eql _ _ E). ring.
+Qed.
+End DCfix.
